@@ -47,13 +47,13 @@ func (c *Case) write(w *bufio.Writer) {
 	fmt.Fprintf(w, "cfg %s hashseed=%d\n", c.Cfg.line(), c.Cfg.HashSeed)
 	for _, o := range c.Ops {
 		switch o.Kind {
-		case "put":
-			fmt.Fprintf(w, "put %s %s\n", hx(o.K), valSpec(o.V))
+		case "put", "crashtorn", "crashtornhdr":
+			fmt.Fprintf(w, "%s %s %s\n", o.Kind, hx(o.K), valSpec(o.V))
 		case "del", "get", "has":
 			fmt.Fprintf(w, "%s %s\n", o.Kind, hx(o.K))
 		case "getappend":
 			fmt.Fprintf(w, "getappend %s %s\n", hx(o.K), hx(o.V))
-		case "compactx":
+		case "compactx", "scan", "backup":
 			var parts []string
 			for _, s := range o.Sub {
 				if s.Kind == "put" {
@@ -62,7 +62,7 @@ func (c *Case) write(w *bufio.Writer) {
 					parts = append(parts, fmt.Sprintf("%d:%s:%s", s.At, s.Kind, hx(s.K)))
 				}
 			}
-			fmt.Fprintf(w, "compactx %s\n", strings.Join(parts, ";"))
+			fmt.Fprintf(w, "%s %s\n", o.Kind, strings.Join(parts, ";"))
 		default:
 			fmt.Fprintf(w, "%s\n", o.Kind)
 		}
@@ -137,12 +137,12 @@ func readCases(path string) []*Case {
 			}
 			out = append(out, cur)
 			cur = nil
-		case "put", "getappend":
+		case "put", "getappend", "crashtorn", "crashtornhdr":
 			cur.Ops = append(cur.Ops, Op{Kind: fs[0], K: unhx(fs[1]), V: unhx(fs[2])})
 		case "del", "get", "has":
 			cur.Ops = append(cur.Ops, Op{Kind: fs[0], K: unhx(fs[1])})
-		case "compactx":
-			o := Op{Kind: "compactx"}
+		case "compactx", "scan", "backup":
+			o := Op{Kind: fs[0]}
 			if len(fs) > 1 {
 				for _, p := range strings.Split(fs[1], ";") {
 					q := strings.Split(p, ":")
@@ -240,12 +240,72 @@ func (h *harness) genCase(r *rng, name, stream string, nops int) *Case {
 	c.Cfg.SyncMode = r.chance(30)
 	c.Cfg.HashSeed = uint32(r.next())
 	c.Cfg.FSName = "sim"
+	if h.prop == "C05" || h.prop == "C15" {
+		// frequent compaction: small segments, low thresholds
+		c.Cfg.MaxSeg = []uint32{1024, 1024, 2048}[r.intn(3)]
+		c.Cfg.MinSeg = []uint32{1, 600}[r.intn(2)]
+		c.Cfg.FragStr = []string{"0.01", "0.01", "0.3"}[r.intn(3)]
+		f, _ := strconv.ParseFloat(c.Cfg.FragStr, 32)
+		c.Cfg.Frag = float32(f)
+	}
 	flavour := r.pick(40, 40, 20)
 	npool := []int{6, 20, 60, 150}[r.pick(20, 30, 30, 20)]
 	if flavour == 1 && npool < 40 && r.chance(60) {
 		npool = 40 + r.intn(60)
 	}
+	small := false
+	if h.prop == "C01" || h.prop == "C11" {
+		// index emphasis: long chains (overflow buckets, holes), many splits, tiny values
+		flavour = r.pick(30, 50, 20)
+		npool = []int{40, 90, 200, 400}[r.pick(25, 35, 25, 15)]
+		if npool > nops {
+			npool = nops
+		}
+		small = true
+		c.Cfg.MaxSeg = []uint32{4096, 65536, 65536}[r.intn(3)]
+	}
 	c.Pool = keyPool(r, c.Cfg.HashSeed, npool, flavour)
+	if h.prop == "C16" {
+		// size limits: keys at and beyond 65535 bytes (incl. lengths that alias a stored key's length
+		// under uint16 truncation), values around sector / buffer boundaries
+		c.Cfg.MaxSeg = 1 << 20
+		c.Pool = nil
+		base := patternBytes(70000, 'q')
+		for _, n := range []int{0, 1, 2, 255, 256, 4095, 65534, 65535} {
+			c.Pool = append(c.Pool, append([]byte(nil), base[:n]...))
+		}
+		for _, n := range []int{65536, 65537, 65538, 65536 + 255, 65536 + 4095, 69999} {
+			c.Pool = append(c.Pool, append([]byte(nil), base[:n]...))
+		}
+		for i := 0; i < 6; i++ {
+			c.Pool = append(c.Pool, []byte(fmt.Sprintf("s%d", i)))
+		}
+		c16vals := []int{0, 0, 1, 2, 490, 500, 502, 511, 512, 513, 1000, 4070, 4086, 4096, 4097, 10000}
+		keyf := func() []byte { return c.Pool[r.intn(len(c.Pool))] }
+		for i := 0; i < nops; i++ {
+			switch r.pick(40, 12, 20, 8, 3, 3, 6, 5, 3) {
+			case 0:
+				c.Ops = append(c.Ops, Op{Kind: "put", K: keyf(), V: patternBytes(c16vals[r.intn(len(c16vals))], byte(r.next()))})
+			case 1:
+				c.Ops = append(c.Ops, Op{Kind: "del", K: keyf()})
+			case 2:
+				c.Ops = append(c.Ops, Op{Kind: "get", K: keyf()})
+			case 3:
+				c.Ops = append(c.Ops, Op{Kind: "has", K: keyf()})
+			case 4:
+				c.Ops = append(c.Ops, Op{Kind: "count"})
+			case 5:
+				c.Ops = append(c.Ops, Op{Kind: "items"})
+			case 6:
+				c.Ops = append(c.Ops, Op{Kind: "reopen"})
+			case 7:
+				c.Ops = append(c.Ops, Op{Kind: "crashreopen"})
+			case 8:
+				c.Ops = append(c.Ops, Op{Kind: "compact"})
+			}
+		}
+		return c
+	}
 	// RecFits: every record fits an empty segment (model precondition, DESIGN 2.4)
 	room := int(c.Cfg.MaxSeg) - 512 - 10
 	var pool [][]byte
@@ -266,6 +326,9 @@ func (h *harness) genCase(r *rng, name, stream string, nops int) *Case {
 	}
 	val := func(k []byte) []byte {
 		var n int
+		if small {
+			return patternBytes(r.intn(4), byte(r.next()))
+		}
 		switch r.pick(15, 35, 30, 15, 5) {
 		case 0:
 			n = 0
@@ -296,6 +359,22 @@ func (h *harness) genCase(r *rng, name, stream string, nops int) *Case {
 	case "ploss":
 		wGet, wHas, wCount, wItems, wDump, wGA = 1, 0, 0, 0, 0, 0
 		wSync, wCompact, wReopen, wCrash = 8, 6, 3, 2
+	}
+	switch h.prop {
+	case "C11", "C12", "C13":
+		wDump = 12
+	}
+	switch h.prop {
+	case "C04":
+		wCrash, wReopen, wCompact = 9, 3, 5
+	case "C05":
+		wCompact, wCrash, wReopen = 14, 2, 2
+	case "C09":
+		wReopen, wCrash, wSync = 12, 3, 4
+	case "C02":
+		wReopen, wCrash, wCompact = 10, 1, 6
+	case "C15":
+		wCompact, wReopen, wCrash = 12, 6, 1
 	}
 	// phase: fill first so that splits/overflow/rollover happen
 	fill := nops / 3
@@ -342,9 +421,55 @@ func (h *harness) genCase(r *rng, name, stream string, nops int) *Case {
 		case 8:
 			c.Ops = append(c.Ops, Op{Kind: "reopen"})
 		case 9:
-			c.Ops = append(c.Ops, Op{Kind: "crashreopen"})
+			if stream != "ploss" && r.chance(60) {
+				k := key()
+				kind := "crashtorn"
+				if r.chance(35) {
+					kind = "crashtornhdr"
+				}
+				v := val(k)
+				if len(v) < 600 && maxVal >= 700 && r.chance(60) {
+					v = patternBytes(600+r.intn(100), byte(r.next()))
+				}
+				c.Ops = append(c.Ops, Op{Kind: kind, K: k, V: v})
+			} else {
+				c.Ops = append(c.Ops, Op{Kind: "crashreopen"})
+			}
 		case 10:
-			c.Ops = append(c.Ops, Op{Kind: "dump"})
+			switch {
+			case h.prop == "C11" || (stream == "ops" && r.chance(30)):
+				o := Op{Kind: "scan"}
+				for j, n := 0, r.intn(8); j < n; j++ {
+					u := SubOp{At: r.intn(len(c.Pool) + 2), K: key()}
+					if r.chance(65) {
+						u.Kind = "put"
+						u.V = val(u.K)
+					} else {
+						u.Kind = "del"
+					}
+					o.Sub = append(o.Sub, u)
+				}
+				sort.SliceStable(o.Sub, func(a, b int) bool { return o.Sub[a].At < o.Sub[b].At })
+				c.Ops = append(c.Ops, o)
+			case h.prop == "C12" || (stream == "ops" && r.chance(30)):
+				o := Op{Kind: "backup"}
+				for j, n := 0, r.intn(6); j < n; j++ {
+					u := SubOp{At: r.intn(6), K: key()}
+					if r.chance(65) {
+						u.Kind = "put"
+						u.V = val(u.K)
+					} else {
+						u.Kind = "del"
+					}
+					o.Sub = append(o.Sub, u)
+				}
+				sort.SliceStable(o.Sub, func(a, b int) bool { return o.Sub[a].At < o.Sub[b].At })
+				c.Ops = append(c.Ops, o)
+			case h.prop == "C13" || (stream != "ploss" && r.chance(30)):
+				c.Ops = append(c.Ops, Op{Kind: "failopen"})
+			default:
+				c.Ops = append(c.Ops, Op{Kind: "dump"})
+			}
 		case 11:
 			c.Ops = append(c.Ops, Op{Kind: "getappend", K: key(), V: patternBytes(r.intn(5), 'B')})
 		}
@@ -368,6 +493,8 @@ type session struct {
 	plAt    int
 	opIndex int
 	r       *rng
+	base    *simfs.Image // image the current sim started from
+	bkNo    int
 }
 
 func (s *session) readSeg(name string) []byte {
@@ -634,11 +761,228 @@ func (s *session) images(mode string) {
 	s.plossImages(to)
 }
 
+// crashTorn runs a Put, lets the process die at a random instant inside it (torn writes
+// included; with hdr the write is torn inside the 6-byte record header) and continues the
+// case from that image.
+func (s *session) crashTorn(o Op, hdr bool) {
+	h := s.h
+	if hdr {
+		// align the next record so that a 512-byte boundary falls 1..5 bytes into it
+		var cur *pogreb.VerifSegment
+		for _, sg := range s.db.VerifSegments() {
+			sg := sg
+			if sg.Current {
+				cur = &sg
+			}
+		}
+		if cur != nil {
+			j := 1 + s.r.intn(5)
+			fk := []byte("fill")
+			// filler record occupies 10+len(fk)+n bytes; want (size+10+4+n) % 512 == 512-j
+			want := (512 - j - (int(cur.Size)+14)%512 + 1024) % 512
+			if int(cur.Size)+14+want+40 < int(s.c.Cfg.MaxSeg) {
+				fv := patternBytes(want, 'F')
+				err := s.db.Put(fk, fv)
+				h.emit("put %s %s %s", hx(fk), hx(fv), errStr(err))
+				s.images("inflight")
+				if s.c.Cfg.SyncMode && err == nil {
+					h.emit("syncpoint")
+				}
+				h.stat("torn.hdr.aligned")
+			}
+		}
+	}
+	from := s.sim.JournalLen()
+	err := s.db.Put(append([]byte(nil), o.K...), append([]byte(nil), o.V...))
+	h.emit("put %s %s %s", hx(o.K), hx(o.V), errStr(err))
+	j := s.sim.Journal()
+	// candidate crash points: (n, cut)
+	type pt struct {
+		n   int
+		cut int64
+	}
+	var pts, torn []pt
+	for i := from; i < len(j); i++ {
+		if !j[i].StateChanging() || j[i].Kind == simfs.KSync {
+			continue
+		}
+		pts = append(pts, pt{i, -1})
+		if strings.HasSuffix(j[i].Name, ".psg") {
+			for _, c := range simfs.TearCuts(j[i]) {
+				torn = append(torn, pt{i, c})
+			}
+		}
+	}
+	pts = append(pts, pt{len(j), -1})
+	var p pt
+	if len(torn) > 0 && (hdr || s.r.chance(70)) {
+		p = torn[s.r.intn(len(torn))]
+		h.stat("torn.segment")
+	} else {
+		p = pts[s.r.intn(len(pts))]
+	}
+	im := simfs.CrashImage(s.base, j, p.n, p.cut)
+	h.emit("kill torn at=j%d/cut%d", p.n, p.cut)
+	// the model adopts the segment files of the image
+	var parts []string
+	for _, name := range im.Names() {
+		if strings.HasPrefix(name, dbDir+"/") && strings.HasSuffix(name, ".psg") {
+			b, _ := im.File(name)
+			data := []byte{}
+			if len(b) > 512 {
+				data = b[512:]
+			}
+			parts = append(parts, fmt.Sprintf("%s:%s", strings.TrimSuffix(strings.TrimPrefix(name, dbDir+"/"), ".psg"), hx(data)))
+		}
+	}
+	if len(parts) == 0 {
+		parts = []string{"-"}
+	}
+	h.emit("adopt %s", strings.Join(parts, " "))
+	s.sim = simfs.FromImage(im)
+	s.base = im
+	s.opts = s.c.Cfg.options(s.sim)
+	s.img = im.Clone()
+	s.imgAt = 0
+	s.pl = simfs.NewPLState(im)
+	s.plAt = 0
+	if s.open("recover") {
+		h.emit("state %s", observe(s.db, s.c.Pool))
+		s.images("stable")
+	}
+}
+
+func (s *session) userOp(u SubOp) {
+	h := s.h
+	if u.Kind == "put" {
+		err := s.db.Put(append([]byte(nil), u.K...), append([]byte(nil), u.V...))
+		h.emit("put %s %s %s", hx(u.K), hx(u.V), errStr(err))
+	} else {
+		err := s.db.Delete(append([]byte(nil), u.K...))
+		h.emit("del %s %s", hx(u.K), errStr(err))
+	}
+	s.images("inflight")
+	if s.c.Cfg.SyncMode {
+		h.emit("syncpoint")
+	}
+}
+
+// scan runs a full Items scan, Next by Next, with the scheduled writer operations placed
+// between Next calls (At = number of Next calls made before the operation).
+func (s *session) scan(o Op) {
+	h := s.h
+	h.emit("scanbegin")
+	it := s.db.Items()
+	sub := o.Sub
+	n := 0
+	for {
+		for len(sub) > 0 && sub[0].At <= n {
+			s.userOp(sub[0])
+			sub = sub[1:]
+			h.stat("scan.userop")
+		}
+		k, v, err := it.Next()
+		if err == pogreb.ErrIterationDone {
+			break
+		}
+		if err != nil {
+			h.emit("next err=%s", errStr(err))
+			break
+		}
+		h.emit("next %s %s", hx(k), hx(v))
+		n++
+		if n > 100000 {
+			break
+		}
+	}
+	// done forever
+	_, _, e1 := it.Next()
+	_, _, e2 := it.Next()
+	done := 0
+	if e1 == pogreb.ErrIterationDone && e2 == pogreb.ErrIterationDone {
+		done = 1
+	}
+	h.emit("scanend n=%d donesticky=%d", n, done)
+}
+
+// backup runs Backup with writer operations placed at its yield points and opens the result.
+func (s *session) backup(o Op) {
+	h := s.h
+	s.bkNo++
+	path := fmt.Sprintf("bk%d", s.bkNo)
+	h.emit("bbegin path=%s", path)
+	sub := o.Sub
+	yieldNo := 0
+	pogreb.VerifSetYield(func(point string) {
+		if !strings.HasPrefix(point, "backup.") {
+			return
+		}
+		for len(sub) > 0 && sub[0].At <= yieldNo {
+			s.userOp(sub[0])
+			sub = sub[1:]
+			h.stat("backup.userop")
+		}
+		yieldNo++
+	})
+	before := dirLine(s.sim.Snapshot())
+	err := s.db.Backup(path)
+	pogreb.VerifSetYield(nil)
+	h.emit("bend %s", errStr(err))
+	if err != nil {
+		return
+	}
+	// the source directory holds the same files as before plus whatever the writers did; the
+	// backup opens (on a copy of the image, so that the source session is undisturbed)
+	_ = before
+	im := s.sim.Snapshot()
+	fs2 := simfs.FromImage(im)
+	o2 := *s.opts
+	o2.FileSystem = fs2
+	db2, err := pogreb.Open(path, &o2)
+	if err != nil {
+		h.emit("bstate openerr=%s", errStr(err))
+		return
+	}
+	h.emit("bstate %s", observe(db2, s.c.Pool))
+}
+
+// failOpen: the process dies; an Open that fails part-way must leave the unclean-shutdown mark.
+func (s *session) failOpen() {
+	h := s.h
+	s.sim.Kill()
+	h.emit("kill")
+	s.sim.FailAfter = 0 // counts from now: relative budget
+	s.sim.ResetFailBudget(1 + s.r.intn(12))
+	db, err := pogreb.Open(dbDir, s.opts)
+	s.sim.ResetFailBudget(-1)
+	if err == nil {
+		// the budget was large enough: a normal recovery
+		s.db = db
+		h.emit("open kind=recover res=ok seed=%d", db.VerifHashSeed())
+		h.emit("state %s", observe(s.db, s.c.Pool))
+		s.images("stable")
+		return
+	}
+	h.emit("failedopen %s", errStr(err))
+	h.stat("failopen.failed")
+	s.sim.Kill() // the failed process goes away too
+	if s.open("recover") {
+		h.emit("state %s", observe(s.db, s.c.Pool))
+		s.images("stable")
+	}
+}
+
 func (h *harness) runCase(c *Case, stream string, r *rng) {
 	h.emit("case %s", c.Name)
 	h.emit("cfg %s hashseed=%d", c.Cfg.line(), c.Cfg.HashSeed)
 	sim := simfs.New()
-	s := &session{h: h, c: c, stream: stream, sim: sim, opts: c.Cfg.options(sim), img: simfs.NewImage(), pl: simfs.NewPLState(simfs.NewImage()), r: r}
+	// per-case PRNG (derived from the case name) so that a case replays exactly on its own
+	hs := uint64(14695981039346656037)
+	for _, ch := range []byte(c.Name) {
+		hs = (hs ^ uint64(ch)) * 1099511628211
+	}
+	r = &rng{s: hs}
+	s := &session{h: h, c: c, stream: stream, sim: sim, opts: c.Cfg.options(sim), img: simfs.NewImage(), pl: simfs.NewPLState(simfs.NewImage()), r: r, base: simfs.NewImage()}
 	if !s.open("fresh") {
 		h.emit("end")
 		return
@@ -731,6 +1075,17 @@ func (h *harness) runCase(c *Case, stream string, r *rng) {
 				s.images("stable")
 				h.emit("state %s", observe(s.db, c.Pool))
 			}
+			sinceCk = 1 << 30
+		case "scan":
+			s.scan(o)
+		case "backup":
+			s.backup(o)
+			sinceCk = 1 << 30
+		case "failopen":
+			s.failOpen()
+			sinceCk = 1 << 30
+		case "crashtorn", "crashtornhdr":
+			s.crashTorn(o, o.Kind == "crashtornhdr")
 			sinceCk = 1 << 30
 		case "dump":
 			sinceCk = 1 << 30
